@@ -212,8 +212,8 @@ def check_c20(tier, seed, verdict, workdir):
     cov = base_cov(prop, tier, pr, modules, "python3 translate/derive.py /repo <Generated/DeriveTemplate.lean>")
     cov.update({
         "evaluations": totals.get("histories", 0),
-        "distinct_nontrivial": 40 if totals.get("histories", 0) >= 40 else totals.get("histories", 0),
-        "rule": "40 generated struct shapes (20 per derive macro; 1-8 fields, mixed and repeated probe types, nested derived sets, "
+        "distinct_nontrivial": 48 if totals.get("histories", 0) >= 48 else totals.get("histories", 0),
+        "rule": "48 generated struct shapes (24 per derive macro, 4 of them declared through a macro_rules! helper; 1-8 fields, mixed and repeated probe types, nested derived sets, "
                 "field names not in alphabetical order, single-line bodies without trailing comma and multi-line bodies) compiled with "
                 "the real macros; each shape runs 2 updates+steps per seed with the derived update and with the hand-written sequence; "
                 "logs (tag, generator output, orders seen) are compared with each other and with the Lean model's prediction; distinct = shapes",
@@ -348,7 +348,7 @@ def check_c17(tier, seed, verdict, workdir):
     cov.update({
         "evaluations": totals.get("histories", 0) * 2,
         "distinct_nontrivial": totals.get("nontrivial_distinct", 0),
-        "rule": "generated momentum configurations (rising/falling/mixed/flat harness-quoted mid paths, decay in {1,1/2,1/4,3/4}, order ratio 0/1, "
+        "rule": "generated momentum configurations (rising/falling/mixed/flat harness-quoted mid paths, decay in {1,1/2,1/4,3/4}, order ratio 0/1 (and 1/2 at saturated demand 4n), mids around 500 ticks or around 10^8, "
                 "1-6 traders, single and multi-asset; two thirds at saturated demand) run on the real agent together with the path mirrored about a "
                 "fixed level; the documented rule is evaluated in exact rational arithmetic on the mids the agent observed (direction always, exact "
                 "counts when saturated) and the mirrored run must show the mirrored flow; non-trivial = runs in which the agent submitted orders",
